@@ -255,6 +255,23 @@ def fixed_project(name: str, stage: int = 0):
                      "slow": [A.read("a.txt"), A.nop(), A.nop(), A.nop(), A.nop(), A.nop(), A.nop(), A.nop(), A.nop(),
                               A.nop(), A.nop(), A.write("slow.txt")]},
             files={"a.txt": "A\n", "sub.py": plan_file(sub), "subsub.py": plan_file(subsub)})
+    if name == "deferred-creator-static":
+        # like deferred-creator; `sub` idles before it defines `slow` (again), and `slow` declares a static file
+        # at its very end, i.e. while it is detached by the second run of `sub`, with all job slots taken: a kill
+        # between its completion and the hash job of that file leaves the file UNCONFIRMED below a detached step
+        # that is recycled SUCCEEDED and never runs again
+        sub = [*[A.nop() for _ in range(25)], A.step("slow", inp=["a.txt"], out=["slow.txt"]), A.amend(inp=["gen.txt"]),
+               A.read("gen.txt")]
+        return Project(
+            scripts={"./plan.py": [A.static("a.txt", "sub.py"), A.step("gen", inp=["a.txt"], out=["gen.txt"]),
+                                   A.step("./sub.py", inp=["sub.py"], plan=True),
+                                   A.step("busy", inp=["a.txt"], out=["busy.txt"])],
+                     "./sub.py": sub,
+                     "gen": [A.read("a.txt"), A.nop(), A.nop(), A.nop(), A.nop(), A.nop(), A.write("gen.txt")],
+                     "busy": [A.read("a.txt"), *[A.nop() for _ in range(60)], A.write("busy.txt")],
+                     "slow": [*[A.nop() for _ in range(10)], A.static("data.txt"),
+                              A.step("copy", inp=["data.txt"], out=["copy.txt"]), A.read("a.txt"), A.write("slow.txt")]},
+            files={"a.txt": "A\n", "sub.py": plan_file(sub), "data.txt": "D\n"})
     if name == "deferred-creator":
         # `sub` defines `slow`, then amends gen.txt, which is not built yet: `sub` is deferred while `slow`
         # runs; when gen.txt is there `sub` runs again, detaches the RUNNING `slow` and recycles it.
@@ -756,6 +773,10 @@ async def search(ctx):
     for j, (njob, sched) in enumerate(((3, "fifo"), (3, "random"), (2, "lifo"))):
         fixed.append({"id": [ctx.seed, -1 - j], "fixed": "deferred-creator", "model_seed": 1000 * ctx.seed + j,
                       "nstep": 3, "njob": njob, "sched": sched, "restart_sched": "random" if j else "fifo", "nmut": 0,
+                      "mut_seed": 0, "step_points": True, "watch": False})
+    for j, (njob, sched) in enumerate(((3, "fifo"), (3, "random"), (3, "lifo"))):
+        fixed.append({"id": [ctx.seed, -31 - j], "fixed": "deferred-creator-static", "model_seed": 1000 * ctx.seed + 91 + j,
+                      "nstep": 3, "njob": njob, "sched": sched, "restart_sched": "fifo", "nmut": 0,
                       "mut_seed": 0, "step_points": True, "watch": False})
     for j, (njob, sched) in enumerate(((3, "fifo"), (3, "random"))):
         fixed.append({"id": [ctx.seed, -21 - j], "fixed": "deferred-grand-creator", "model_seed": 1000 * ctx.seed + 77 + j,
